@@ -366,6 +366,43 @@ theorem yields_prefix (hq : Quiet steps.toList) (hp : PredsClean steps) (limit :
     have := hns _ hmem
     simp [Ev.isStop] at this
 
+/-- **Laziness of the work done**: everything the first `k` successful `next()` calls did —
+every match attempt, every user-predicate call — is a prefix of the specification's stream;
+that prefix ends with the `k`-th result, so nothing beyond it has been evaluated -/
+theorem yields_stream_prefix (hq : Quiet steps.toList) (hp : PredsClean steps) (limit : Nat) (st' : St J)
+    (rs : List (MNode J)) (E : List (Ev J))
+    (hy : Yields J.view steps src limit freshIter rs E st') :
+    ∃ E2, stream steps.toList 0 src.rootNode = E ++ E2 := by
+  obtain ⟨j, hj, hr, hns⟩ := yields_run J.view steps src hp limit _ _ _ _ hy
+  obtain ⟨k, stD, hfull, hdone⟩ := full_run steps src hq
+  by_cases hle : j ≤ 1 + k
+  · have : 1 + k = j + (1 + k - j) := by omega
+    rw [this, hrun_add, hj] at hfull
+    simp only [Prod.mk.injEq] at hfull
+    exact ⟨_, hfull.2.symm⟩
+  · have : j = (1 + k) + (j - (1 + k)) := by omega
+    rw [this, hrun_add, hfull, hrun_done _ _ _ _ _ hdone] at hj
+    simp only [Prod.mk.injEq] at hj
+    have hmem : (Ev.stop : Ev J) ∈ E := by
+      rw [← hj.2]
+      apply List.mem_append_right
+      cases hx : j - (1 + k) with
+      | zero => omega
+      | succ x => simp [List.replicate_succ]
+    have := hns _ hmem
+    simp [Ev.isStop] at this
+
+/-- a path of child steps, recursive steps and parent steps (no filters, no zero slice step)
+is quiet and has clean predicates — vacuously -/
+theorem quiet_of_filterFree (ss : List (Step J)) (h : ∀ s ∈ ss, s.supported = true ∧ ∀ f, s ≠ .filter f) :
+    Quiet ss := by
+  intro s hs
+  exact ⟨(h s hs).1, fun f hf => absurd hf ((h s hs).2 f)⟩
+
+theorem clean_of_filterFree (h : ∀ s ∈ steps.toList, ∀ f, s ≠ .filter f) : PredsClean steps := by
+  intro s hs f hf
+  exact absurd hf (h s hs f)
+
 /-- **Exhaustion**: when `next()` raises `StopIteration`, everything the definition selects
 has been yielded, exactly once, in order -/
 theorem exhausted_all (hq : Quiet steps.toList) (hp : PredsClean steps) (limit : Nat) (st' st'' : St J)
